@@ -22,6 +22,11 @@ func BuildHiddenRequest(serverKEM *keys.KEMPublicKey, cli *Ident, ts int64) []by
 // BuildHiddenRequestK also returns the client's view of a response ciphertext (decapsulation
 // with the ephemeral KEM key of the request).
 func BuildHiddenRequestK(serverKEM *keys.KEMPublicKey, cli *Ident, ts int64) ([]byte, func(ct []byte) []byte) {
+	return BuildHiddenRequestU(serverKEM, cli, uint64(ts))
+}
+
+// BuildHiddenRequestU: the timestamp field is any 64-bit value (the wire field is unsigned).
+func BuildHiddenRequestU(serverKEM *keys.KEMPublicKey, cli *Ident, ts uint64) ([]byte, func(ct []byte) []byte) {
 	sh := &Shadow{Fps: [][]byte{nil}}
 	sh.Reset()
 	sh.Absorb([]byte(PQHiddenName))
@@ -45,7 +50,7 @@ func BuildHiddenRequestK(serverKEM *keys.KEMPublicKey, cli *Ident, ts int64) ([]
 	ec := sh.Encrypt(vectors(leaf, inter))
 	tag := sh.Squeeze(16)
 	tb := make([]byte, 8)
-	binary.BigEndian.PutUint64(tb, uint64(ts))
+	binary.BigEndian.PutUint64(tb, ts)
 	ets := sh.Encrypt(tb)
 	mac := sh.Squeeze(16)
 	out := append([]byte(nil), hdr...)
@@ -64,7 +69,6 @@ func (w *World) C19Discoverable(r *hv.Rand) {
 	ccfg := w.Cli.ClientConfig(w.P.Verify(PolStore, w.SrvName, nil, false))
 	srv := NewSrv(SingleConfig(w.Srv, cv, false))
 	q := NewSeq(srv, []*Ident{w.Srv}, false)
-	del := func(from *net.UDPAddr, d []byte, what string) []Dgram { out, _ := q.Step(from, d, what, nil); return out }
 	ok, sig, what := true, "", ""
 	fail := func(s, m string) {
 		if ok {
@@ -120,15 +124,28 @@ func (w *World) C19Discoverable(r *hv.Rand) {
 		{"another client KEM key in the message", same, func(x *WB) []byte { m := append([]byte(nil), x.CAck...); copy(m[36:836], okpub); return m }, false, false},
 		{"cookie of another handshake (other address)", same, nil, false, false},
 		{"after cookie-key rotation", same, nil, true, false},
+		{"cookie with its first bit flipped", same, func(x *WB) []byte { m := append([]byte(nil), x.CAck...); m[836] ^= 0x80; return m }, false, false},
+		{"cookie with a bit of the sealed secret flipped", same, func(x *WB) []byte { m := append([]byte(nil), x.CAck...); m[836+17] ^= 0x04; return m }, false, false},
+		{"cookie with a bit of its tag flipped", same, func(x *WB) []byte { m := append([]byte(nil), x.CAck...); m[836+40] ^= 0x01; return m }, false, false},
+		{"cookie with its last bit flipped", same, func(x *WB) []byte { m := append([]byte(nil), x.CAck...); m[899] ^= 0x01; return m }, false, false},
+		{"one bit of the client KEM key flipped (AD component)", same, func(x *WB) []byte { m := append([]byte(nil), x.CAck...); m[36+5] ^= 0x01; return m }, false, false},
+		{"the neighbouring port below", func(a *net.UDPAddr) *net.UDPAddr { return Addr(a.IP.String(), a.Port-1) }, nil, false, false},
+		{"the same port on a neighbouring ip", func(a *net.UDPAddr) *net.UDPAddr { return Addr("10.0.0.2", a.Port) }, nil, false, false},
 		{"unchanged (control)", same, nil, false, true},
 	}
+	q.Emit("discoverable-hello-flood", fmt.Sprintf("%d ClientHellos from many addresses and repeated from one; table sizes after every step", n+10), ok, sig, what, true)
 	for _, v := range vs {
+		srv := NewSrv(SingleConfig(w.Srv, cv, false))
+		q := NewSeq(srv, []*Ident{w.Srv}, false)
+		del := func(from *net.UDPAddr, d []byte, what string) []Dgram { out, _ := q.Step(from, d, what, nil); return out }
+		ok, sig, what := true, "", ""
 		a := w.NextAddr()
 		// run CH/SH white box without delivering the ClientAck
 		x, err := newWBUntilAck(srv, del, ccfg, a)
 		if err != nil {
 			panic(err)
 		}
+		q.Base(x.CAck)
 		msg := x.CAck
 		if v.mutate != nil {
 			msg = v.mutate(x)
@@ -149,13 +166,22 @@ func (w *World) C19Discoverable(r *hv.Rand) {
 		h1, s1, _ := srv.S.VerifHsTables()
 		accepted := len(out) > 0 || h1 != h0 || s1 != s0
 		if accepted && !v.accept {
-			fail("C19:client-ack-accepted-with-foreign-cookie", "a ClientAck whose cookie was minted for a different source/key or under an older key ("+v.name+") was answered or allocated state")
+			ok, sig, what = false, "C19:client-ack-accepted-with-foreign-cookie", "a ClientAck whose cookie was minted for a different source/key or under an older key, or was altered ("+v.name+"), was answered or allocated state"
 		}
 		if !accepted && v.accept {
-			fail("C19:honest-client-ack-rejected", "an unchanged ClientAck from the address the cookie was minted for was rejected")
+			ok, sig, what = false, "C19:honest-client-ack-rejected", "an unchanged ClientAck from the address the cookie was minted for was rejected"
 		}
+		if !v.accept { // and the unchanged ClientAck from the right address still works afterwards
+			if out, _ := q.Step(a, x.CAck, "ClientAck[unchanged, afterwards]", nil); ok && (len(out) > 0) == v.rotate {
+				if v.rotate {
+					ok, sig, what = false, "C19:client-ack-accepted-with-foreign-cookie", "after rotation even the unchanged ClientAck was answered"
+				} else {
+					ok, sig, what = false, "C19:honest-client-ack-rejected", "after a displaced ClientAck the unchanged one from the right address was rejected"
+				}
+			}
+		}
+		q.Emit("discoverable-cookie/"+v.name, "cookie presented: "+v.name, ok, sig, what, !v.accept)
 	}
-	q.Emit("discoverable-hello-and-cookies", fmt.Sprintf("%d ClientHellos from many addresses, then cookies replayed from another port / ip / key / handshake / after rotation", n+10), ok, sig, what, true)
 }
 
 // newWBUntilAck: ClientHello delivered, ServerHello read, ClientAck written but NOT delivered.
@@ -200,14 +226,20 @@ func (w *World) C19Hidden(r *hv.Rand) {
 	if err := tw.Auth(); err != nil {
 		panic(err)
 	}
-	for ci, cfg := range w.c10configs()[2:] {
-		srv, ids := cfg.mk()
-		q := NewSeq(srv, ids, true)
+	for _, cfg := range w.c10configs()[2:] {
+		var srv *Srv
+		var ids []*Ident
+		var q *Seq
 		ok, sig, what := true, "", ""
 		fail := func(s, m string) {
 			if ok {
 				ok, sig, what = false, s, m
 			}
+		}
+		begin := func() {
+			srv, ids = cfg.mk()
+			q = NewSeq(srv, ids, true)
+			ok, sig, what = true, "", ""
 		}
 		silent := func(from *net.UDPAddr, d []byte, name string) {
 			out, _ := q.Step(from, d, name, nil)
@@ -215,6 +247,8 @@ func (w *World) C19Hidden(r *hv.Rand) {
 				fail("C19:hidden-server-answers-non-request", fmt.Sprintf("the hidden server sent %d datagram(s) in response to %s", len(out), name))
 			}
 		}
+		// (1) everything that is not a hidden request
+		begin()
 		for _, b := range [][]byte{tw.CH, tw.CAck, tw.CAuth} {
 			q.Base(b)
 		}
@@ -227,6 +261,9 @@ func (w *World) C19Hidden(r *hv.Rand) {
 		for _, j := range garbage(r)[:40] {
 			silent(a, j, "garbage")
 		}
+		q.Emit("hidden-silence/"+cfg.name+"/non-requests", "hidden server probed with valid discoverable-mode messages and garbage", ok, sig, what, true)
+		// (2) requests that must not be answered
+		begin()
 		now := time.Now().Unix()
 		wrong := must(keys.GenerateKEMKeyPair(rand.Reader))
 		silent(w.NextAddr(), BuildHiddenRequest(&wrong.Public, w.Cli, now), "a request under a KEM key that is not the server's")
@@ -238,14 +275,16 @@ func (w *World) C19Hidden(r *hv.Rand) {
 			silent(w.NextAddr(), BuildHiddenRequest(&id.KEM.Public, w.Cli, time.Now().Unix()+dt), fmt.Sprintf("a request from the future (+%d s)", dt))
 		}
 		silent(w.NextAddr(), BuildHiddenRequest(&id.KEM.Public, w.P.Untrusted("mallory"), time.Now().Unix()), "a well-formed request of a client the policy rejects")
-		// fresh ones are answered (controls), inside the window
+		q.Emit("hidden-silence/"+cfg.name+"/bad-requests", "requests under a foreign KEM key, stale, from the future, from a client the policy rejects", ok, sig, what, true)
+		// (3) fresh ones are answered (controls), each then re-sent changed
 		for _, dt := range []int64{0, 1, 3} {
+			begin()
 			req, dec := BuildHiddenRequestK(&id.KEM.Public, w.Cli, time.Now().Unix()-dt)
+			q.Base(req)
 			out, _ := q.Step(w.NextAddr(), req, fmt.Sprintf("fresh request (%d s old)", dt), dec)
 			if len(out) != 1 || len(out[0].Data) < 808 {
 				fail("C19:fresh-hidden-request-unanswered", fmt.Sprintf("a fresh well-formed request (%d s old) was not answered", dt))
 			}
-			// mutated copies of an answered request
 			for _, off := range []int{0, 1, 2, 3, 4, 803, 804, 1571, 1572, len(req) - 41, len(req) - 25, len(req) - 24, len(req) - 17, len(req) - 16, len(req) - 1} {
 				x := append([]byte(nil), req...)
 				x[off] ^= 0x40
@@ -253,23 +292,66 @@ func (w *World) C19Hidden(r *hv.Rand) {
 			}
 			silent(w.NextAddr(), req[:len(req)-1], "an answered request cut by one byte")
 			silent(w.NextAddr(), append(append([]byte(nil), req...), 0), "an answered request extended by one byte")
+			q.Emit(fmt.Sprintf("hidden-silence/%s/fresh-%ds-and-changed-copies", cfg.name, dt), "a fresh request (answered) and the same request with one byte changed, cut, extended (silence)", ok, sig, what, true)
 		}
-		q.Emit(fmt.Sprintf("hidden-silence/%s", cfg.name), "hidden server probed with valid discoverable messages, garbage, wrong-key / stale / future / policy-failing / mutated requests, and fresh requests as controls", ok, sig, what, true)
-		_ = ci
 	}
-	// late replay: a request that was answered, presented again after the window
+	// timestamp field set to boundary values in otherwise fully valid requests (right KEM key,
+	// acceptable certificate, correct tag and MAC): the server may answer only if
+	// 0 <= now - ts <= 5 in unbounded integer arithmetic, the field being an unsigned 64-bit number.
+	// Then every answered one, and every one with a huge timestamp, again after the window.
 	srv := NewSrv(SingleConfig(w.Srv, cv, true))
 	q := NewSeq(srv, []*Ident{w.Srv}, true)
-	req, dec := BuildHiddenRequestK(&w.Srv.KEM.Public, w.Cli, time.Now().Unix())
-	q.Base(req)
-	out1, _ := q.Step(w.NextAddr(), req, "fresh request", dec)
-	time.Sleep(time.Duration(hv.Scale(6200, 7500)) * time.Millisecond)
-	out2, _ := q.Step(w.NextAddr(), req, "the same request replayed more than 5 s later", nil)
 	ok, sig, what := true, "", ""
-	if len(out1) != 1 {
-		ok, sig, what = false, "C19:fresh-hidden-request-unanswered", "fresh request not answered"
-	} else if len(out2) != 0 {
-		ok, sig, what = false, "C19:hidden-server-answers-late-replay", "a request replayed after the timestamp window was answered"
+	fail := func(s, m string) {
+		if ok {
+			ok, sig, what = false, s, m
+		}
 	}
-	q.Emit("hidden-late-replay", "an answered request replayed after the window", ok, sig, what, true)
+	type sent struct {
+		req  []byte
+		dec  func([]byte) []byte
+		name string
+	}
+	var replay []sent
+	for time.Now().Nanosecond() > 400_000_000 { // keep "now" fixed over the class
+		time.Sleep(20 * time.Millisecond)
+	}
+	now := uint64(time.Now().Unix())
+	type tsv struct {
+		name string
+		v    uint64
+	}
+	vals := []tsv{{"now", now}, {"now-4", now - 4}, {"now-5", now - 5}, {"now-6", now - 6}, {"now-3600", now - 3600}, {"0", 0}, {"1", 1},
+		{"now+1", now + 1}, {"now+5", now + 5}, {"now+3600", now + 3600}, {"2^31", 1 << 31}, {"2^32", 1 << 32}, {"2^62", 1 << 62},
+		{"2^63-1", 1<<63 - 1}, {"2^63", 1 << 63}, {"2^63+1", 1<<63 + 1}, {"2^63+now-1", 1<<63 + now - 1}, {"2^63+now", 1<<63 + now},
+		{"2^63+now+1", 1<<63 + now + 1}, {"2^63+now+10", 1<<63 + now + 10}, {"2^64-now", -now}, {"2^64-6", ^uint64(5)}, {"2^64-1", ^uint64(0)}}
+	for _, t := range vals {
+		if uint64(time.Now().Unix()) != now {
+			break // the clock ticked: the remaining values would be judged against another second
+		}
+		req, dec := BuildHiddenRequestU(&w.Srv.KEM.Public, w.Cli, t.v)
+		if t.v <= now && now-t.v <= 5 || t.v >= 1<<62 {
+			q.Base(req) // it will be presented a second time
+		}
+		out, _ := q.Step(w.NextAddr(), req, "valid request with timestamp field "+t.name, dec)
+		may := t.v <= now && now-t.v <= 5
+		answered := len(out) > 0
+		if answered && !may {
+			fail("C19:hidden-server-answers-stale-timestamp", fmt.Sprintf("a fully valid hidden request whose timestamp field is %s = %d was answered at time %d: now - ts is not in [0,5]", t.name, t.v, now))
+		}
+		if !answered && may {
+			fail("C19:fresh-hidden-request-unanswered", fmt.Sprintf("a fresh request (timestamp %s) was not answered", t.name))
+		}
+		if answered || t.v >= 1<<62 {
+			replay = append(replay, sent{req, dec, t.name})
+		}
+	}
+	time.Sleep(time.Duration(hv.Scale(6200, 7500)) * time.Millisecond)
+	for _, r := range replay {
+		out, _ := q.Step(w.NextAddr(), r.req, "replayed after the window: timestamp field "+r.name, r.dec)
+		if len(out) != 0 {
+			fail("C19:hidden-server-answers-late-replay", "a request (timestamp field "+r.name+") replayed more than 5 s after it was first presented was answered")
+		}
+	}
+	q.Emit("hidden-timestamp-boundaries-and-late-replay", fmt.Sprintf("%d fully valid hidden requests with boundary timestamp fields, then %d of them replayed after the window", len(vals), len(replay)), ok, sig, what, true)
 }
